@@ -82,6 +82,18 @@ def val_json(v):
     return v
 
 
+def val_from_json(o):
+    """Inverse of val_json (also accepts already decoded bytes)."""
+    if isinstance(o, dict):
+        if "__pkt__" in o:
+            return PV(o["__pkt__"], {k: val_from_json(v) for k, v in o["v"].items()})
+        if set(o) == {"__bytes__"}:
+            return bytes.fromhex(o["__bytes__"])
+    if isinstance(o, list):
+        return [val_from_json(x) for x in o]
+    return o
+
+
 def copy_val(v):
     if isinstance(v, PV):
         return PV(v.decl, {k: copy_val(x) for k, x in v.vals.items()})
@@ -376,6 +388,7 @@ def choose_int_for(f, rng, n, signed):
 DELIM_SAMPLES = {
     "crlf": [b"\n", b"\r\n"], "nuls": [b"\x00", b"\x00\x00"], "semi": [b";"], "sep": [b";", b","],
     "nl_or_end": [b"\n", b""], "ab_or_a": [b"ab", b"a"], "xx": [b"xx"],
+    "noesc_quote": [b'"'], "lb_semi": [b";"], "caret_or_comma": [b",", b";"],
 }
 BODY_ALPHABET = b"cdefgh\x01\x02\x7fXYZ"   # never part of any marker/regex delimiter
 
